@@ -48,6 +48,7 @@ type File struct {
 	Head         []string        // comment lines before the package clause
 	Aliases      map[*Pkg]string // explicit import alias per imported package ("" = none)
 	BlankImports []*Pkg          // import _ "path" (keeps a package directly imported)
+	DotImport    *Pkg            // import . "path": names of this package are written without qualifier in this file
 	Unsafe       bool            // the file imports "unsafe" (first in its import block) and uses it once
 	// filled by the renderer:
 	Lines   []string
